@@ -225,6 +225,58 @@ fn carc<T: El>() -> R {
     drop(h2);
     drop(h);
     ensure!(get(&MY_DROP_CALLS) == d0 + 2, "layout:carc_from_c_drop", "Drop must call the stored drop_fn once per handle");
+    // C -> Rust, an arc without a drop function (a value in static storage: `drop_fn == NULL`): it is not empty - it reads, clones
+    // through its clone function and copies all three fields; releasing any handle calls nothing
+    {
+        let (c0, d0) = (get(&MY_CLONE_CALLS), get(&MY_DROP_CALLS));
+        let view = CArcView { instance: Arc::as_ptr(&retained) as *const c_void, clone_fn: Some(my_clone), drop_fn: None };
+        let h: CArc<T> = unsafe { std::mem::transmute_copy(&view) };
+        ensure!(h.as_ref().map(|r| r.val()) == Some(3), "layout:carc_nodrop_read", "Rust reads a different value from a C-assembled arc without a drop function");
+        let h2 = h.clone();
+        let v2: CArcView = unsafe { std::mem::transmute_copy(&h2) };
+        ensure!(get(&MY_CLONE_CALLS) == c0 + 1, "layout:carc_nodrop_clone", "cloning a non-empty arc without a drop function called its clone function {} time(s)", get(&MY_CLONE_CALLS) - c0);
+        ensure!(v2.instance == view.instance && h2.as_ref().map(|r| r.val()) == Some(3), "layout:carc_nodrop_clone", "the clone of a non-empty arc without a drop function does not refer to the shared value (instance {:#x}, expected {:#x})", v2.instance as usize, view.instance as usize);
+        ensure!(v2.clone_fn.map(|f| f as usize) == view.clone_fn.map(|f| f as usize) && v2.drop_fn.is_none(), "layout:carc_nodrop_clone", "the clone does not carry the same function pointers");
+        let o = h2.into_opaque();
+        let o2 = o.clone();
+        let ov: CArcView = unsafe { std::mem::transmute_copy(&o2) };
+        ensure!(get(&MY_CLONE_CALLS) == c0 + 2 && ov.instance == view.instance, "layout:carc_nodrop_clone", "the opaque clone of an arc without a drop function is not a handle of the shared value");
+        drop(o2);
+        drop(o);
+        drop(h);
+        ensure!(get(&MY_DROP_CALLS) == d0, "layout:carc_nodrop_release", "releasing handles without a drop function made {} release call(s)", get(&MY_DROP_CALLS) - d0);
+    }
+    // C -> Rust, a clone function that refuses (returns NULL): however Rust reports that, no reference that was never acquired
+    // is released, and the original handle stays usable and is released once
+    {
+        unsafe extern "C" fn refusing_clone(_p: *const c_void) -> *const c_void {
+            bump(&MY_CLONE_CALLS);
+            std::ptr::null()
+        }
+        let (c0, d0) = (get(&MY_CLONE_CALLS), get(&MY_DROP_CALLS));
+        let view = CArcView { instance: Arc::as_ptr(&retained) as *const c_void, clone_fn: Some(refusing_clone), drop_fn: Some(my_drop) };
+        let hs: CArcSome<T> = unsafe { std::mem::transmute_copy(&view) };
+        let r = guarded(|| hs.clone());
+        let made = match r {
+            Ok(c) => {
+                std::mem::forget(c);
+                true
+            }
+            Err(()) => false,
+        };
+        ensure!(get(&MY_CLONE_CALLS) == c0 + 1, "layout:carc_refused_clone", "clone called the clone function {} time(s)", get(&MY_CLONE_CALLS) - c0);
+        ensure!(get(&MY_DROP_CALLS) == d0, "layout:carc_refused_clone", "a clone the foreign clone function refused (NULL){} made {} release call(s) although no reference was acquired", if made { "" } else { ", reported by a panic," }, get(&MY_DROP_CALLS) - d0);
+        ensure!(AsRef::<T>::as_ref(&hs).val() == 3, "layout:carc_refused_clone", "the original handle does not read the value any more");
+        let h: CArc<T> = unsafe { std::mem::transmute_copy(&view) };
+        let r2 = guarded(|| h.clone());
+        if let Ok(c) = r2 {
+            std::mem::forget(c);
+        }
+        ensure!(get(&MY_DROP_CALLS) == d0, "layout:carc_refused_clone", "a refused clone of a CArc made {} release call(s)", get(&MY_DROP_CALLS) - d0);
+        std::mem::forget(h);
+        drop(hs);
+        ensure!(get(&MY_DROP_CALLS) == d0 + 1, "layout:carc_refused_clone", "the original handle was released {} time(s) after a refused clone", get(&MY_DROP_CALLS) - d0);
+    }
     drop(retained);
     // C -> Rust, a foreign arc that hands out ONE INSTANCE POINTER PER HANDLE (a handle table / per-owner cells): the clone
     // holds the pointer its clone function returned, and every pointer handed out is released exactly once
@@ -407,16 +459,25 @@ fn citer<T: El>() -> R {
         std::mem::forget(it);
         ensure!(v.iter as usize == src_addr, "layout:iter_state", "first word is not the iterator state");
         let f = v.func.ok_or(("layout:iter_func".to_string(), "second word is not a function pointer".to_string()))?;
+        // `out` is a pure out-parameter: a C caller has ONE slot, holding whatever was there before (here: the bits of a value
+        // somebody else owns, then the bits of the items already moved out) - the next function must only write it
+        let sentinel = T::make(999);
+        let mut out = std::mem::MaybeUninit::<T>::uninit();
+        unsafe { std::ptr::copy_nonoverlapping(&sentinel as *const T, out.as_mut_ptr(), 1) };
+        let mut items = Vec::new();
         for want in [1u64, 2] {
-            let mut out = std::mem::MaybeUninit::<T>::uninit();
             let rc = f(v.iter, out.as_mut_ptr());
             ensure!(rc == 0, "layout:iter_rc_item", "next function returned {} for an item (must be 0)", rc);
-            let item = unsafe { out.assume_init() };
+            let item = unsafe { out.as_ptr().read() };
             ensure!(item.val() == want, "layout:iter_item", "item {} expected {}", item.val(), want);
+            items.push(item);
+            ensure!(d.not_equal(0).is_empty(), "layout:iter_out_slot", "the next function released what was in the caller's out slot before writing the item: drop counts {:?}", d.counts());
         }
-        let mut out = std::mem::MaybeUninit::<T>::uninit();
         let rc = f(v.iter, out.as_mut_ptr());
         ensure!(rc != 0, "layout:iter_rc_end", "next function returned 0 at the end");
+        ensure!(d.not_equal(0).is_empty(), "layout:iter_out_slot", "the next function released what was in the caller's out slot at the end of the iteration: drop counts {:?}", d.counts());
+        drop(items);
+        drop(sentinel);
     }
     drop(src);
     // C -> Rust: "0 for an item" — any non-zero value ends the iteration
